@@ -28,7 +28,13 @@ Trace_Cache.tla / Trace_StaticCache.tla (code -> spec).
    by them, and they adjudicate: when the implementation model (Cache.tla) cannot explain what the code
    did, the observed histories (a seeded sample of up to 2000 mismatching sequences, panics first) are
    judged against the property alone - rejected => VIOLATION; accepted => the code still satisfies C16 but
-   no longer evicts like the model (MODEL-DRIFT note, no violation).  Thorough: TLC simulates behaviours
+   no longer behaves like the model in something the statement leaves free: FIFO order, how much is
+   evicted, exact size accounting, the cache_time representation, status / MIME table of uncached answers
+   (SPEC-DRIFT via ctx.drift, never a violation, exit code unchanged).  The judges look only at what the
+   statement names: bytes and MIME type of a hit = the latest store of that key, its age measured from the
+   store's own clock window, immediate retrievability, existence of a retention schedule within the limit;
+   handler level: body = a version of the file not older than the limit, one Content-Type per (uri, host),
+   no 200 for a path that is not a file.  Thorough: TLC simulates behaviours
    of the seven faulty models and the judge must reject each of them (and accept Dev = {}).
 6. Self-test of the binding: one corrupted edge, one corrupted cache log record and one corrupted handler
    log record must be rejected (otherwise exit 2) - run only on material that validated cleanly and only
@@ -196,16 +202,14 @@ def adjudicate_sequences(ctx, cache, label, limit, tl, unit, s, wd):
                       {"kind": "cache-trace", "module": "Trace_CacheProp.tla", "cfg": "Trace_CacheProp.cfg", "events": events[lo:hi],
                        "property_rejects": rej[:5], "model_mismatch": first})
         return
-    # the property holds on everything sampled: is it the model or my plumbing that is off?
+    # the property holds on everything sampled: the code differs from the implementation model in something the
+    # statement leaves free (eviction order, how much is evicted, time representation, ...) - drift, not violation
     ts = validate_trace("Trace_Cache.tla", "Trace_Cache.cfg", path, "adj-" + label)
-    if ts.violation is None:
-        raise vlib.ToolError("%s: the graph replay reports mismatches (%s) but TLC's own replay of the observed histories with Cache.tla "
-                             "accepts them: inconsistency inside the check, not in the code" % (label, json.dumps(first)))
-    msg = ("MODEL-DRIFT property=C16 %s: the real Cache no longer behaves like spec/cache/Cache.tla (first difference: %s) but all %d sampled "
-           "observed histories satisfy C16 as judged by Trace_CacheProp; not a violation - the model needs updating" % (label, json.dumps(first), len(seqs)))
-    print(msg, flush=True)
+    note = "" if ts.violation is not None else " (TLC's own replay of these histories with Cache.tla accepts them: the difference is in something only the graph replay compares)"
+    msg = ("%s: the real Cache does not behave like spec/cache/Cache.tla (%d mismatches, first: %s) but all %d sampled observed "
+           "histories satisfy C16 as judged by Trace_CacheProp%s" % (label, s["mismatches"], json.dumps(first), len(seqs), note))
+    ctx.drift("implementation model Cache.tla", msg, {"kind": "cache-seq", "graph": label, "mismatch": first, "more": s["first"][1:]})
     ctx.add_part("MODEL_DRIFT " + label, mismatches=s["mismatches"], histories_judged=len(seqs), first=first)
-    ctx.assumptions.append(msg)
 
 
 def adjudicate_log(ctx, name, module, cfg, path, evs, t):
@@ -215,11 +219,12 @@ def adjudicate_log(ctx, name, module, cfg, path, evs, t):
     ctx.add_tlc("property judge on rejected log: " + name, tj)
     at, ev, pred = rejected_info(t)
     if ok:
-        msg = ("MODEL-DRIFT property=C16 %s: the log is not a behaviour of the implementation model (record %s: %s; model predicts %s) "
-               "but satisfies C16 as judged by %s; not a violation - the model needs updating" % (name, at, json.dumps(ev), json.dumps(pred)[:400], jm))
-        print(msg, flush=True)
+        msg = ("%s: the log is not a behaviour of the implementation model (record %s: %s; model predicts %s) but satisfies C16 as "
+               "judged by %s" % (name, at, json.dumps(ev), json.dumps(pred)[:400], jm))
+        lo = max([i for i in range(at or 0) if evs[i]["ev"] == "reset"] + [0])
+        ctx.drift("implementation model " + ("Cache.tla" if jm == "Trace_CacheProp" else "StaticCache.tla"), msg,
+                  {"kind": "cache-trace", "module": module, "cfg": cfg, "events": evs[lo:((at or 0) + 20)], "rejected_at": at, "model": pred})
         ctx.add_part("MODEL_DRIFT " + name, rejected_at=at, event=ev, model=pred)
-        ctx.assumptions.append(msg)
         return
     rat = rej[0]["at"]
     lo = max([i for i in range(rat) if evs[i]["ev"] == "reset"] + [0])
